@@ -11,7 +11,7 @@
 
 static int thorough;
 
-typedef struct { int ver, kx; uint16_t suite; const char *name; int cbc; } pcfg_t;
+typedef struct { int ver, kx; uint16_t suite; const char *name; int cbc; int early, hrr, resume; } pcfg_t;
 static const pcfg_t pcfgs[] = {
     { V_TLS12, KX_RSA, TLS_RSA_WITH_AES_128_GCM_SHA256, "tls12-gcm128", 0 },
     { V_TLS12, KX_ECDHE_RSA, TLS_ECDHE_RSA_WITH_AES_256_GCM_SHA384, "tls12-ecdhe-gcm256", 0 },
@@ -24,6 +24,12 @@ static const pcfg_t pcfgs[] = {
     { V_TLS12, KX_PSK, TLS_PSK_WITH_AES_256_CBC_SHA384, "tls12-cbc256-sha384", 1 },
     { V_DTLS10, KX_PSK, TLS_PSK_WITH_AES_128_CBC_SHA, "dtls10-cbc", 1 },
     { V_DTLS12, KX_PSK, TLS_PSK_WITH_AES_128_CBC_SHA256, "dtls12-cbc-sha256", 1 },
+    /* TLS 1.3 key phases beyond the plain handshake: 0-RTT data under the early traffic key (external PSK: rejected by the
+       server; ticket resumption: accepted), a second ClientHello after HelloRetryRequest, and both together */
+    { V_TLS13, KX_13_PSK, TLS_AES_128_GCM_SHA256, "tls13-psk-0rtt", 0, 1, 0, 0 },
+    { V_TLS13, KX_13_PSK, TLS_AES_128_GCM_SHA256, "tls13-psk-0rtt-hrr", 0, 1, 1, 0 },
+    { V_TLS13, KX_13_RSA, TLS_AES_128_GCM_SHA256, "tls13-hrr", 0, 0, 1, 0 },
+    { V_TLS13, KX_13_RSA, TLS_AES_128_GCM_SHA256, "tls13-ticket-0rtt-accepted", 0, 1, 0, 1 },
 };
 #define NPCFG ((int) (sizeof(pcfgs) / sizeof(pcfgs[0])))
 
@@ -33,7 +39,7 @@ typedef struct { uint64_t key; unsigned char nonce[12]; uint64_t data; uint32_t 
 static seal_t seals[MAXSEAL];
 static int nseals;
 #define MAXCTX 16
-static struct { const void *ctx; uint64_t key; unsigned char nonce[12]; int have_nonce; } ctxs[MAXCTX];
+static struct { const void *ctx; uint64_t key; unsigned char nonce[12]; int have_nonce, readied; } ctxs[MAXCTX];
 static int nctx;
 static char mon_violation[200];
 static int mon_dtls, mon_tls13;
@@ -140,16 +146,23 @@ static void hook(int op, const void *ctx, const unsigned char *a, int alen, cons
     case ENV_OP_CHACHA_INIT:
         ctxs[s].key = fnv1a(a, (size_t) alen, FNV0 ^ 0x77);
         ctxs[s].have_nonce = 0;
+        ctxs[s].readied = 0;
         break;
     case ENV_OP_GCM_READY:
         memcpy(ctxs[s].nonce, a, 12);
         ctxs[s].have_nonce = 1;
+        ctxs[s].readied = 1;
         break;
     case ENV_OP_GCM_ENC:
         if (ctxs[s].have_nonce)
         {
             note_seal(ctxs[s].key, ctxs[s].nonce, b, blen);
             ctxs[s].have_nonce = 0; /* one seal per Ready */
+        }
+        else if (!ctxs[s].readied)
+        {
+            /* not a record seal: a context keyed and used once with a random IV (psAesReadyGCMRandomIV, the TLS 1.3
+               session-ticket encryption in tls13Resume.c) never went through the record layer's nonce set-up */
         }
         else if (!mon_violation[0])
         {
@@ -425,8 +438,8 @@ static void dfs_node(void *ctx, mx_result_t *r)
     expand(g); /* children record themselves */
 }
 
-enum { HD_NONE = 0, HD_DROP, HD_DUP, HD_TIMEOUT0, HD_TIMEOUT1, HD_NK };
-static const char *hdname[] = { "none", "drop", "dup", "timeout-client", "timeout-server" };
+enum { HD_NONE = 0, HD_DROP, HD_DUP, HD_TIMEOUT0, HD_TIMEOUT1, HD_CSEND, HD_SSEND, HD_CCLOSE, HD_SCLOSE, HD_NK };
+static const char *hdname[] = { "none", "drop", "dup", "timeout-client", "timeout-server", "client-writes", "server-writes", "client-closure", "server-closure" };
 
 /* handshake with (DTLS) one deviation at step hs_dev_step */
 static int do_handshake(gctx_t *g)
@@ -436,6 +449,7 @@ static int do_handshake(gctx_t *g)
     int turn = 0, step = 0, rounds = 0;
     memset(&c, 0, sizeof(c));
     c.ver = pc->ver; c.kx = pc->kx; c.suite = pc->suite;
+    c.early_data = pc->early; c.early_send = pc->early; c.hrr = pc->hrr; c.resume13 = pc->resume; c.tickets = pc->resume;
     nseals = nctx = 0;
     nblocks[0] = nblocks[1] = 0;
     seen_ccs[0] = seen_ccs[1] = 0;
@@ -497,6 +511,14 @@ static int do_handshake(gctx_t *g)
                 {
                     world_dtls_timeout(&g->w, 1);
                 }
+                break;
+            case HD_CSEND: case HD_SSEND:
+                /* the application writes in the middle of the handshake (refused, or sealed under whatever key phase is
+                   active: early, handshake - never under a (key, nonce) already used) */
+                world_app_send(&g->w, g->hs_dev_kind == HD_SSEND, (const unsigned char *) "mid-handshake write", 19);
+                break;
+            case HD_CCLOSE: case HD_SCLOSE:
+                world_close(&g->w, g->hs_dev_kind == HD_SCLOSE);
                 break;
             }
             after_action(g, e0);
@@ -624,7 +646,7 @@ int main(int argc, char **argv)
     cfg.assumptions[2] = "CBC: the on-wire IV block of each protected record must differ from every earlier ciphertext block of that direction and >= 16 fresh entropy bytes must be drawn per CBC record (PRNG = psGetEntropy, pinned)";
     replay = mx_parse_args(argc, argv, &cfg);
     thorough = !strcmp(cfg.tier, "thorough");
-    cfg.bound = thorough ? "operation depth 4 after an undisturbed handshake; depth 2 after each single DTLS handshake deviation" : "operation depth 3 after an undisturbed handshake; depth 1 after each single DTLS handshake deviation";
+    cfg.bound = thorough ? "operation depth 4 after an undisturbed handshake; depth 2 after each single handshake deviation (DTLS: loss, duplication, timer; every version: an application write or a closure by either side at each handshake step)" : "operation depth 3 after an undisturbed handshake; depth 1 after each single handshake deviation (DTLS: loss, duplication, timer; every version: an application write or a closure by either side at each handshake step)";
 
     if (replay)
     {
@@ -666,13 +688,16 @@ int main(int argc, char **argv)
     for (pi = 0; pi < NPCFG; pi++)
     {
         groups[ngroups++] = (grp_t) { pi, 0, HD_NONE };
-        if (ver_is_dtls(pcfgs[pi].ver))
         {
-            int step, kind;
-            for (step = 0; step < 12; step++)
+            int step, kind, dt = ver_is_dtls(pcfgs[pi].ver);
+            for (step = 0; step < 14; step++)
             {
                 for (kind = HD_DROP; kind < HD_NK; kind++)
                 {
+                    if (!dt && kind < HD_CSEND)
+                    {
+                        continue;   /* loss / duplication / timers: DTLS only; writes and closures in the middle of the handshake: every version */
+                    }
                     groups[ngroups++] = (grp_t) { pi, step, kind };
                 }
             }
